@@ -198,6 +198,14 @@ static int decide(int s, int m) {
   if (!phase) return 0;
   { int mm_ = m & 31;   /* lifecycle / select / plan-status callbacks take no decision: only guards, update* and react* may */
     if (mm_ == M_ENTER || mm_ == M_REENTER || mm_ == M_EXIT || mm_ == M_SELECT) return 0; }
+#ifdef CB_ONLY_STATE
+  /* cheap variant: exactly one compile-time chosen entry guard may (or may not) redirect to one chosen state */
+  if (s != CB_ONLY_STATE || (m & 31) != M_ENTRY_GUARD || budget <= 0) return 0;
+  { _Bool go = nondet_bool();
+    if (!go) return 0;
+    budget--; note_request(1, CB_ONLY_DEST); n_sub++;
+    return (1 << 8) | CB_ONLY_DEST; }
+#endif
 #ifdef P_C10
   if (dec_set[s][m & 31]) return dec_fix[s][m & 31];
 #endif
